@@ -117,7 +117,11 @@ def _weave_states_in_region(
         regions = [container]
 
     for region in regions:
-        for block in region.blocks:
+        for block_index, block in enumerate(region.blocks):
+            if block_index > 0:
+                # unstructured control flow: what holds at the start of this block
+                # depends on where it is entered from
+                state.clear()
             for op in block.ops:
                 # handle accfg.setup ops:
                 if isinstance(op, accfg.SetupOp):
